@@ -56,7 +56,15 @@ type Gen struct {
 	snipeU    [2]int
 	snipeAmt  math.Int
 	snipePx   string
+	// directed scenarios "crowded book" (more than a hundred bids in one batch auction, the last one decisive) and
+	// "marathon" (an auction with the largest admissible number of extended rounds is extended every time)
+	crowdN       int
+	crowdTried   bool
+	marathonWait bool
 }
+
+// Busy: a directed scenario is under way; the history may run past its nominal length to finish it
+func (g *Gen) Busy() bool { return len(g.pending) > 0 }
 
 var profiles = map[string]map[string]int{
 	"fixed":     {"CFA": 8, "CBA": 1, "CAN": 3, "BID": 40, "MOD": 2, "ADDMSG": 1, "PARAMS": 2, "APIADD": 10, "APIUPD": 6, "BLOCK": 22, "SEND": 3, "LISTEN": 0, "GENESIS": 1, "FBLOCK": 0, "QUERY": 4},
@@ -251,7 +259,10 @@ func (g *Gen) create(fixed bool) Op {
 	}
 	maxr := fmt.Sprint(g.r.N(4))
 	if g.r.P(g.bad()) {
-		maxr = "31"
+		maxr = fmt.Sprint(types.MaxExtendedRound + 1)
+	} else if (g.profile == "batch" || g.profile == "heavy") && g.r.P(3) {
+		maxr = fmt.Sprint(types.MaxExtendedRound)
+		g.marathonWait = true
 	}
 	rate := g.r.Pick("1", "50000000000000000", "100000000000000000", "300000000000000000", "500000000000000000", E18, "5000000000000000000", "333333333333333333",
 		"250000000000000000", "200000000000000000", "750000000000000000", "666666666666666667", "333333333333333334", "500000000000000000", "250000000000000000")
@@ -482,6 +493,43 @@ func (g *Gen) heavyBid() Op {
 		w = math.NewInt(1)
 	}
 	return NewOp("BID", "who", fmt.Sprintf("u%d", g.heavyU), "a", fmt.Sprint(g.heavyA), "bt", "2", "price", ps, "coin", pd+":"+w.String())
+}
+
+func (g *Gen) crowdOp(kind string, as []types.AuctionI) Op {
+	now := g.now()
+	switch kind {
+	case "CROWD_CBA":
+		// a plain batch auction: no instalments, no extension, opens one hour from now for a day
+		g.heavyA = uint64(len(as))
+		return NewOp("CBA", "who", "u0", "price", E18, "minp", "100000000000000000", "sell", "0:100000", "pay", "1", "vs", "-",
+			"maxr", "0", "rate", "100000000000000000", "start", fmt.Sprint(now+nsHour), "end", fmt.Sprint(now+nsHour+nsDay))
+	case "CROWD_START":
+		return NewOp("BLOCK", "t", fmt.Sprint(now+nsHour))
+	case "CROWD_ADD":
+		var l []string
+		for u := 1; u < NUsers-1; u++ {
+			l = append(l, fmt.Sprintf("%d/u%d/100000", g.heavyA, u))
+		}
+		return NewOp("APIADD", "a", fmt.Sprint(g.heavyA), "l", strings.Join(l, ";"))
+	case "CROWD_BID":
+		// small how-many bids on two low price levels
+		u := 1 + g.r.N(NUsers-2)
+		return NewOp("BID", "who", fmt.Sprintf("u%d", u), "a", fmt.Sprint(g.heavyA), "bt", "3", "price", g.r.Pick(E18, "1100000000000000000"), "coin", fmt.Sprintf("0:%d", 1+g.r.N(3)))
+	case "CROWD_TOP":
+		// the decisive late bid: the whole offer at a higher price
+		return NewOp("BID", "who", fmt.Sprintf("u%d", 1+g.r.N(NUsers-2)), "a", fmt.Sprint(g.heavyA), "bt", "3", "price", "2000000000000000000", "coin", "0:100000")
+	case "MARATHON":
+		for _, a := range as {
+			if a.GetId() == g.heavyA && len(a.GetEndTimes()) > 0 {
+				t := a.GetEndTimes()[len(a.GetEndTimes())-1].UnixNano()
+				if t < now {
+					t = now
+				}
+				return NewOp("BLOCK", "t", fmt.Sprint(t))
+			}
+		}
+	}
+	return NewOp("BLOCK", "t", fmt.Sprint(now))
 }
 
 func (g *Gen) mod() Op {
@@ -756,6 +804,36 @@ func (g *Gen) SafeNext() (o Op) {
 func (g *Gen) Next() Op {
 	g.nOps++
 	as := g.auctions()
+	if len(g.pending) > 0 && (strings.HasPrefix(g.pending[0], "CROWD_") || g.pending[0] == "MARATHON") {
+		kind := g.pending[0]
+		g.pending = g.pending[1:]
+		return g.crowdOp(kind, as)
+	}
+	if g.profile == "heavy" && !g.crowdTried && len(as) == 0 {
+		g.crowdTried = true
+		if g.r.P(5) {
+			g.crowdN = 101 + g.r.N(4)
+			g.pending = []string{"CROWD_CBA", "CROWD_START", "CROWD_ADD"}
+			for i := 0; i < g.crowdN; i++ {
+				g.pending = append(g.pending, "CROWD_BID")
+			}
+			g.pending = append(g.pending, "CROWD_TOP", "HEND")
+			return g.Next()
+		}
+	}
+	if g.marathonWait && len(g.pending) == 0 {
+		g.marathonWait = false
+		for _, a := range as {
+			if ba, ok := a.(*types.BatchAuction); ok && ba.MaxExtendedRound == types.MaxExtendedRound && a.GetStatus() != types.AuctionStatusCancelled && a.GetStatus() != types.AuctionStatusFinished {
+				g.heavyA = a.GetId()
+				for i := 0; i < types.MaxExtendedRound+3; i++ {
+					g.pending = append(g.pending, "MARATHON")
+				}
+				g.nOps--
+				return g.Next()
+			}
+		}
+	}
 	if len(as) == 0 && g.r.P(85) {
 		switch g.profile {
 		case "fixed":
